@@ -2,10 +2,21 @@ package main
 
 import (
 	"context"
+	"crypto/ecdh"
+	"crypto/ecdsa"
+	"crypto/ed25519"
+	"crypto/elliptic"
 	"crypto/x509"
+	"encoding/base64"
 	"fmt"
+	"math/big"
+	"net"
 	"strconv"
 	"strings"
+	"time"
+
+	"github.com/slackhq/nebula/cert"
+	"go.step.sm/crypto/x25519"
 
 	"go.step.sm/crypto/jose"
 	"go.step.sm/crypto/sshutil"
@@ -92,7 +103,7 @@ func bytesForSigning(cert *ssh.Certificate) []byte {
 	return out[:len(out)-4]
 }
 
-type crFacts struct{ sig, chain, dig, admin, dom, grp, ident bool }
+type crFacts struct{ sig, chain, dig, admin, dom, grp, ident, vpanic bool }
 
 type analysis struct {
 	line       string
@@ -126,7 +137,7 @@ func (w *World) analyse(op string, nowNs int64, token string) (a analysis) {
 	fmt.Fprintf(&sb, " hosts=%s provs=%s", c.List(hs), c.List(ps))
 
 	empty := func() {
-		fmt.Fprintf(&sb, " parsed=0 kid=x iss=x sub=x aud=- exp=! nbf=! iat=! azp=x tid=x email=x lbt=0 frag=x fragesc=x hasssh=0 sshtype=0 pop=! cr=-")
+		fmt.Fprintf(&sb, " parsed=0 kid=x iss=x sub=x aud=- exp=! nbf=! iat=! azp=x tid=x email=x lbt=0 frag=x fragesc=x hasssh=0 sshtype=0 nebssh=0 pop=! cr=-")
 		a.line = sb.String()
 	}
 	tok, err := jose.ParseSigned(token)
@@ -157,6 +168,10 @@ func (w *World) analyse(op string, nowNs int64, token string) (a analysis) {
 			sshTypeOk = terr == nil
 		}
 	}
+	nebSSH := true
+	if hasSSH {
+		nebSSH = nebulaSSHOk(tok, jp.Step.SSH)
+	}
 	// sshpop header
 	pop := "!"
 	popCert, popJWT, perr := provisioner.ExtractSSHPOPCert(token)
@@ -172,7 +187,7 @@ func (w *World) analyse(op string, nowNs int64, token string) (a analysis) {
 	// crypto facts per configured provisioner
 	crs := make([]string, len(w.provs))
 	for i, p := range w.provs {
-		var sig, chain, dig, admin, dom, grp, ident bool
+		var sig, chain, dig, admin, dom, grp, ident, vpanic bool
 		switch p.Ty {
 		case "jwk":
 			var x jwtPayload
@@ -214,6 +229,8 @@ func (w *World) analyse(op string, nowNs int64, token string) (a analysis) {
 				var x jwtPayload
 				sig = tok.Claims(leaf.PublicKey, &x) == nil
 			}
+		case "nebula":
+			chain, sig, vpanic = nebulaFacts(tok, p)
 		case "sshpop":
 			if perr == nil {
 				keys := w.sshKeys[popCert.CertType == ssh.UserCert]
@@ -230,14 +247,14 @@ func (w *World) analyse(op string, nowNs int64, token string) (a analysis) {
 				}
 			}
 		}
-		crs[i] = c.B(sig) + c.B(chain) + c.B(dig) + c.B(admin) + c.B(dom) + c.B(grp) + c.B(ident)
-		a.crs = append(a.crs, crFacts{sig, chain, dig, admin, dom, grp, ident})
+		crs[i] = c.B(sig) + c.B(chain) + c.B(dig) + c.B(admin) + c.B(dom) + c.B(grp) + c.B(ident) + c.B(vpanic)
+		a.crs = append(a.crs, crFacts{sig, chain, dig, admin, dom, grp, ident, vpanic})
 	}
-	fmt.Fprintf(&sb, " parsed=1 kid=%s iss=%s sub=%s aud=%s exp=%s nbf=%s iat=%s azp=%s tid=%s email=%s lbt=%s frag=%s fragesc=%s hasssh=%s sshtype=%s pop=%s cr=%s",
+	fmt.Fprintf(&sb, " parsed=1 kid=%s iss=%s sub=%s aud=%s exp=%s nbf=%s iat=%s azp=%s tid=%s email=%s lbt=%s frag=%s fragesc=%s hasssh=%s sshtype=%s nebssh=%s pop=%s cr=%s",
 		c.X(tok.Headers[0].KeyID), c.X(claims.Issuer), c.X(claims.Subject), c.List(auds),
 		optInt(claims.Expiry), optInt(claims.NotBefore), optInt(claims.IssuedAt),
 		c.X(lbt.AuthorizedParty), c.X(lbt.TenantID), c.X(lbt.Email), c.B(lbtOk), c.X(frag), c.X(fragEsc(frag)),
-		c.B(hasSSH), c.B(sshTypeOk), pop, c.List(crs))
+		c.B(hasSSH), c.B(sshTypeOk), c.B(nebSSH), pop, c.List(crs))
 	a.line = sb.String()
 	const lee = int64(60e9)
 	if claims.Expiry != nil {
@@ -250,4 +267,94 @@ func (w *World) analyse(op string, nowNs int64, token string) (a analysis) {
 		a.boundaries = append(a.boundaries, int64(*claims.IssuedAt)*1e9-lee)
 	}
 	return
+}
+
+// nebulaFacts: the certificate in the `nebula` header verifies against the provisioner's CA pool
+// now, and the token verifies under the key of that certificate (P-256 / ed25519 / x25519, as the
+// provisioner derives it).
+func nebulaFacts(tok *jose.JSONWebToken, p *Prov) (chain, sig, vpanic bool) {
+	nc := nebulaCert(tok)
+	if nc == nil {
+		return
+	}
+	valid := false
+	func() {
+		defer func() {
+			if recover() != nil {
+				vpanic = true
+			}
+		}()
+		valid, _ = nc.Verify(time.Now(), p.nebPool)
+	}()
+	if vpanic || !valid {
+		return
+	}
+	defer func() { recover() }()
+	chain = true
+	var pub any
+	switch {
+	case nc.Details.Curve == cert.Curve_P256:
+		ecdhPub, err := ecdh.P256().NewPublicKey(nc.Details.PublicKey)
+		if err != nil {
+			return
+		}
+		pb := ecdhPub.Bytes()
+		pub = &ecdsa.PublicKey{Curve: elliptic.P256(), X: new(big.Int).SetBytes(pb[1:33]), Y: new(big.Int).SetBytes(pb[33:])}
+	case nc.Details.IsCA:
+		pub = ed25519.PublicKey(nc.Details.PublicKey)
+	default:
+		pub = x25519.PublicKey(nc.Details.PublicKey)
+	}
+	var x jwtPayload
+	sig = jose.Verify(tok, pub, &x) == nil
+	return
+}
+
+func nebulaCert(tok *jose.JSONWebToken) *cert.NebulaCertificate {
+	h, ok := tok.Headers[0].ExtraHeaders["nebula"]
+	if !ok {
+		return nil
+	}
+	s, ok := h.(string)
+	if !ok {
+		return nil
+	}
+	b, err := base64.StdEncoding.DecodeString(s)
+	if err != nil {
+		return nil
+	}
+	nc, err := cert.UnmarshalNebulaCertificate(b)
+	if err != nil {
+		return nil
+	}
+	return nc
+}
+
+// nebulaSSHOk: nebulaPrincipalsValidator.Valid and the cert type test of Nebula.AuthorizeSSHSign
+func nebulaSSHOk(tok *jose.JSONWebToken, o *provisioner.SignSSHOptions) (ok bool) {
+	defer func() {
+		if recover() != nil {
+			ok = false
+		}
+	}()
+	nc := nebulaCert(tok)
+	if nc == nil {
+		return true // never consulted: the certificate is rejected first
+	}
+	for _, p := range o.Principals {
+		valid := p == nc.Details.Name
+		if !valid {
+			if ip := net.ParseIP(p); ip != nil {
+				for _, ipnet := range nc.Details.Ips {
+					if ip.Equal(ipnet.IP) {
+						valid = true
+					}
+				}
+			}
+		}
+		if !valid {
+			return false
+		}
+	}
+	return o.CertType == "" || o.CertType == provisioner.SSHHostCert
 }
